@@ -1,6 +1,6 @@
 (* Property C19 — permission-gated code execution never runs a forbidden construct.
    Only statements and [exact]; proofs live in Proofs/PermProofs.v. *)
-From PG Require Import Common.Tactics Gen.PermTable Model.Perm Proofs.PermProofs Proofs.PermInstance Model.EvalModel Gen.EvalShape Proofs.EvalProofs Proofs.EvalInstance Model.EvalOut Gen.EvalOut Proofs.EvalOutProofs Proofs.EvalOutInstance.
+From PG Require Import Common.Tactics Gen.PermTable Model.Perm Proofs.PermProofs Proofs.PermInstance Model.EvalModel Gen.EvalShape Proofs.EvalProofs Proofs.EvalInstance Model.EvalOut Gen.EvalOutPlan Proofs.EvalOutProofs Proofs.EvalOutInstance.
 From Coq Require Import NArith.
 Local Open Scope N_scope.
 
@@ -90,7 +90,7 @@ Theorem C19_evaluate_result_is_last_value : forall p body last e, prog_wf p = tr
 Proof. exact generated_result_is_last_value. Qed.
 Print Assumptions C19_evaluate_result_is_last_value.
 
-(* ---- intermediate variables (Model/EvalOut.v; plan regenerated from execution.py into Gen/EvalOut.v) ------------- *)
+(* ---- intermediate variables (Model/EvalOut.v; plan regenerated from execution.py into Gen/EvalOutPlan.v) ------------- *)
 (* The names evaluate(outputs_intermediate=True) reports, other than '__result__', are exactly the names that plain
    execution of the same program on the same symbols leaves bound to an object that is not the injected one (new names
    included, deleted and untouched names excluded); evaluate fails exactly when plain execution does. For every nesting
